@@ -361,12 +361,29 @@ def run(prog, rep):
                         swapped = True
         if want[0] == "any":
             swapped = swapped or bool(cmps)        # 0 is the same in both byte orders
+        # ... all 32 bits of it: no conversion to a narrower integer between the stored address and the compared value (a 16-bit swap
+        # macro keeps two of the four bytes, and 0.0.x.y then tests as 0.0.0.0)
+        narrowed = None
+        if cmps:
+            var = cmps[0][2]
+            for b, i, n in fn.nodes():
+                if (n["k"] == "asg" and root_var(n["l"]) == var and strip_casts(n["l"])["k"] == "ref") or (n["k"] == "decl" and n.get("name") == var and n.get("init") is not None):
+                    for x in walk(n["r"] if n["k"] == "asg" else n["init"]):
+                        if x["k"] == "cast" and x.get("e") is not None:
+                            t1, t0 = fn.unit.type_of(x), fn.unit.type_of(x["e"])
+                            if t1 and t0 and t1.get("k") == "int" and t0.get("k") == "int" and t1.get("w", 0) < 32 <= t0.get("w", 0):
+                                narrowed = (x, t1.get("s"))
+        if narrowed is not None:
+            rep.ob("C17.5", fn, "ipv4:width", False, "line %d: the address passes through %s on its way to the comparison: only part of its four bytes is tested, so %s" % (
+                line(narrowed[0]), narrowed[1], "every address 0.0.x.y counts as the any-address" if want[0] == "any" else "the classification looks at the wrong bytes"), narrowed[0])
+        else:
+            rep.ob("C17.5", fn, "ipv4:width", bool(cmps), "the compared value carries all 32 bits of the address" if cmps else "no comparison found", fn.loc[0])
         rep.ob("C17.5", fn, "ipv4", ok5 and swapped,
                ("0.0.0.0 test" if want[0] == "any" else "(host-order address & 0xff000000) == 0x7f000000") if ok5 and swapped else
                "the IPv4 %s test is %s%s" % ("any-address" if want[0] == "any" else "loopback",
                                             ", ".join("(& %s) == %s" % (hex(c[0]) if c[0] is not None else "-", hex(c[1])) for c in cmps) or "missing",
                                             "" if swapped else " on an address that is not converted to host order"), fn.loc[0])
-    rep.floor("C17.5", 2)
+    rep.floor("C17.5", 4)
 
 
 def swaps(name):
@@ -422,12 +439,14 @@ _run_clauses = run
 def run(prog, rep):
     _run_clauses(prog, rep)
     from plint.wiring import check_zero_init
-    check_zero_init(rep, "C17.2", prog, ['psocketaddress.c'], 4)
+    check_zero_init(rep, "C17.2", prog, ['psocketaddress.c'], 1)
 
 # generic robustness battery: renaming every local/parameter in these files must not change any verdict
 RENAME_LOCALS = ['src/psocketaddress.c']
 
 SELFTEST = [
+    dict(id="is-any-sixteen-bit-swap", file="src/psocketaddress.c", expect="C17.5",
+         old="\t\taddr4 = p_ntohl (* ((puint32 *) &addr->addr.sin_addr));\n\n\t\treturn (addr4 == INADDR_ANY);", new="\t\taddr4 = p_ntohs (* ((puint32 *) &addr->addr.sin_addr));\n\n\t\treturn (addr4 == INADDR_ANY);"),
     dict(id="to-native-clears-whole-struct-before-guard", file="src/psocketaddress.c", expect="C17.1",
          old="\t\tif (P_UNLIKELY (destlen < sizeof (struct sockaddr_in))) {", new="\t\tmemset (sin, 0, sizeof (struct sockaddr_in));\n\n\t\tif (P_UNLIKELY (destlen < sizeof (struct sockaddr_in))) {"),
     dict(id="to-native-clears-whole-struct-after-guard-neutral", file="src/psocketaddress.c", expect=None,
